@@ -128,60 +128,118 @@ def field_path(t):
     return tuple(out)
 
 
-def events_of(F, fn, p, local_roles):
-    """ordered events of one path + whether the state is threaded"""
-    evs = []
-    state = ("param", 1, "u64")
-    threaded = True
-    for e in tbl.residual_calls(p):
-        nm = e["name"]
-        c = e["callee"]
-        rc = None
-        if c and c["krate"] == "postcard_schema":
-            rc = local_roles.get(c.get("canon")) or local_roles.get((c.get("resolved") or {}).get("canon"))
-        if rc is not None:
-            role = rc[0]
-            if norm(e["args"][0]) != norm(state):
-                threaded = False
-            state = e["result"]
-            if role == "update":
-                a = e["args"][1]
-                snap = e["snap"][1]
-                b = None
-                if snap and snap[0] == "agg" and snap[1] == "array" and len(snap[5]) == 1 and sym.is_c(snap[5][0]):
-                    b = snap[5][0][1]
-                na = norm(a)
-                raw = a
-                while raw[0] == "ref" and raw[1][0] == "P":
-                    raw = raw[1][1]
-                if b is not None:
-                    evs.append(("Tag", b))
-                elif raw[0] == "call" and (raw[2] or "").endswith("<impl str>::as_bytes"):
-                    evs.append(("Name", field_path(raw[3][0])[1:]))
-                else:
-                    evs.append(("Bytes", sym.show(na)))
-            elif role == "update_str":
-                evs.append(("Name", field_path(e["args"][1])[1:]))
-            else:
-                # the subject (and only the subject) identifies what is hashed next; unused extra arguments (a bound-but-unhashed
-                # type name) are not part of the stream
-                extra = (field_path(e["args"][rc[2] - 1])[1:],)
-                evs.append(("Rec", role, extra))
-        elif nm in ("as_bytes", "len", "deref", "index", "as_ref"):
+def role_event(e, rc):
+    """stream element of one call to a role function"""
+    role = rc[0]
+    if role == "update":
+        a = e["args"][1]
+        snap = e["snap"][1]
+        raw = a
+        while raw[0] == "ref" and raw[1][0] == "P":
+            raw = raw[1][1]
+        if snap and snap[0] == "agg" and snap[1] == "array" and snap[5] and all(sym.is_c(x) for x in snap[5]):
+            return [("Tag", x[1]) for x in snap[5]]
+        if raw[0] == "call" and (raw[2] or "").endswith("<impl str>::as_bytes"):
+            return [("Name", field_path(raw[3][0])[1:])]
+        return [("Bytes", sym.show(norm(a)))]
+    if role == "update_str":
+        return [("Name", field_path(e["args"][1])[1:])]
+    # the subject (and only the subject) identifies what is hashed next; unused extra arguments (a bound-but-unhashed
+    # type name) are not part of the stream
+    return [("Rec", role, (field_path(e["args"][rc[2] - 1])[1:],))]
+
+
+def role_of_event(e, local_roles):
+    c = e["callee"]
+    if c and c["krate"] == "postcard_schema":
+        return local_roles.get(c.get("canon")) or local_roles.get((c.get("resolved") or {}).get("canon"))
+    return None
+
+
+def decode_state(p, term, local_roles):
+    """running-state term -> (stream oldest first, ids of the calls that produced it), or None when the term is not
+    a chain of FNV-1a rounds on constant bytes / role-function calls starting at the incoming state"""
+    out, ids = [], set()
+    t = term
+    for _ in range(10000):
+        t = norm(t)
+        if t == ("param", 1, "u64"):
+            out.reverse()
+            return [x for grp in out for x in grp], ids
+        if not (isinstance(t, tuple) and t and t[0] == "call"):
+            return None
+        key = t[2] or ""
+        if key.endswith("::wrapping_mul") and len(t[3]) == 2:
+            a, b = norm(t[3][0]), norm(t[3][1])
+            if sym.is_c(a):
+                a, b = b, a
+            if not (sym.is_c(b) and b[1] == PRIME and a[0] == "bin" and a[1] == "BitXor"):
+                return None
+            x, y = norm(a[2]), norm(a[3])
+            if sym.is_c(x):
+                x, y = y, x
+            if not (sym.is_c(y) and 0 <= y[1] < 256):
+                return None
+            out.append([("Tag", y[1])])
+            ids.add(t[1])
+            t = x
             continue
-        elif c and c["krate"] in ("core", "alloc", "std") and nm in ("deref", "as_ref", "index", "as_bytes", "len"):
+        e = tbl.event_by_id(p, t[1])
+        rc = role_of_event(e, local_roles) if e else None
+        if rc is None or not e["args"]:
+            return None
+        out.append(role_event(e, rc))
+        ids.add(t[1])
+        t = e["args"][0]
+    return None
+
+
+def events_of(F, fn, p, local_roles):
+    """ordered stream fed to the hash on one path + whether the running state is threaded through all of it and returned.
+    The stream is decoded from the *value* of the returned state (FNV-1a rounds on constant bytes and calls of the role functions,
+    innermost first), so it does not matter through which helper a byte reaches the hash."""
+    calls = tbl.residual_calls(p)
+    role_calls = [e for e in calls if role_of_event(e, local_roles) is not None]
+    term = p.ret if p.status == "return" else (role_calls[-1]["result"] if role_calls else ("param", 1, "u64"))
+    dec = decode_state(p, term, local_roles) if term is not None else None
+    if dec is None:
+        # not a recognisable chain: report the calls in program order (diagnostic only) and say so
+        evs = []
+        for e in role_calls:
+            evs += role_event(e, role_of_event(e, local_roles))
+        return evs, False
+    evs, ids = dec
+    threaded = True
+    for e in calls:
+        if e["id"] in ids:
+            continue
+        nm, c = e["name"], e["callee"]
+        if role_of_event(e, local_roles) is not None:
+            threaded = False            # a hashing step whose result does not reach the returned state
+            evs.append(("Dropped", e["key"]))
+        elif nm in ("as_bytes", "len", "deref", "index", "as_ref"):
             continue
         else:
             evs.append(("Other", e["key"]))
-    ret_ok = p.status == "cut" or norm(p.ret) == norm(state)
-    return evs, threaded and ret_ok
+    return evs, threaded
 
 
 def arms_of(F, fn, adt_variants, subject_arg, roles=None):
     """-> {variant name: sorted list of event tuples over the explored iteration counts}"""
     roles = roles or {}
     # private helpers (loops over children, patch helpers) are analysed in place; the role functions themselves stay calls
-    eng = sym.Engine(F, max_visits=3, max_depth=10, inline=lambda f, ev: f.crate == "postcard_schema" and "::key::hash::" in f.canon and f.canon not in roles)
+    def inl(f, ev):
+        if f.crate != "postcard_schema" or "::key::hash::" not in f.canon:
+            return False
+        r = roles.get(f.canon)
+        if r is None:
+            return True
+        if r[0] == "update":
+            # the byte fold over a *constant* array is evaluated in place: its rounds become part of the state term
+            s = ev["snap"][1] if len(ev.get("snap") or []) > 1 else None
+            return bool(s and s[0] == "agg" and s[1] == "array" and s[5] and all(sym.is_c(x) for x in s[5]))
+        return False
+    eng = sym.Engine(F, max_visits=3, max_depth=10, inline=inl)
     arms = {}
     bad = []
     for p in eng.run(fn):
@@ -276,8 +334,8 @@ def run(run_, ctx):
                         probs.append("the tag is not the first thing hashed")
                     if not tag_first and (len(evs) < 2 or evs[0][0] != "Name" or evs[0][1] != ("name",) or evs[1][0] != "Tag"):
                         probs.append("a variant must hash its name, then its tag, then its payload")
-                    if any(e[0] in ("Other", "Bytes") for e in evs):
-                        probs.append("unexpected hashed data / call: %s" % [e for e in evs if e[0] in ("Other", "Bytes")][:2])
+                    if any(e[0] in ("Other", "Bytes", "Dropped") for e in evs):
+                        probs.append("unexpected hashed data / call: %s" % [e for e in evs if e[0] in ("Other", "Bytes", "Dropped")][:2])
                     if role == "sdm" and name == "Enum" and any(e[0] == "Name" for e in evs):
                         probs.append("the enum's own type name is hashed")
                     if probs:
